@@ -1,31 +1,48 @@
 ---------------------------- MODULE Concurrency ----------------------------
 (***************************************************************************)
-(* Why concurrent use is safe: every call works on state it owns.          *)
-(* Threads run calls split into K internal steps.  A call reads its input, *)
-(* immutable tables, and its own scratch state; SharedCells is the set of  *)
-(* mutable cells reachable from more than one call.  With SharedCells = {} *)
-(* every result is F(input); with one shared cell (a cache a call writes   *)
-(* its input to at step 1 and reads back at the last step) TLC finds the   *)
-(* racy schedule - kept as a negative self-test of the model.              *)
+(* Why every public function is a function of its arguments alone: every   *)
+(* call works on state it owns and leaves nothing behind.                  *)
+(* Threads run sequences of up to Calls calls, each split into K internal  *)
+(* steps.  A call reads its input, immutable tables, and its own scratch   *)
+(* state.  Two kinds of cell would break this and are the negative         *)
+(* configurations of the model:                                            *)
+(*  SharedCells # {}: a mutable cell reachable from more than one thread   *)
+(*     (a cache a call writes its input to at step 1 and reads back at the *)
+(*     last step): TLC finds the racy schedule;                            *)
+(*  Retained # {}: a cell that survives the call in its thread (a          *)
+(*     thread_local pool, a recycled object with a field that is not       *)
+(*     reset): the first call of a thread leaves its input there and later *)
+(*     calls of that thread read it - no second thread is needed, the      *)
+(*     counterexample is a history of two calls.                           *)
+(* With both empty every result is F(input), whatever ran before or runs   *)
+(* at the same time.                                                       *)
 (***************************************************************************)
-EXTENDS Naturals, FiniteSets, TLC
-CONSTANTS Threads, Inputs, K, SharedCells
-VARIABLES pc, inp, scratch, shared, results
-vars == <<pc, inp, scratch, shared, results>>
+EXTENDS Naturals, Sequences, FiniteSets, TLC
+CONSTANTS Threads, Inputs, K, Calls, SharedCells, Retained
+VARIABLES pc, inp, scratch, shared, kept, results
+vars == <<pc, inp, scratch, shared, kept, results>>
 F(x) == x * 7 + 3            \* what a call computes; any pure function
-Init == /\ pc = [t \in Threads |-> 0] /\ inp \in [Threads -> Inputs]
-        /\ scratch = [t \in Threads |-> 0] /\ shared = 0 /\ results = [t \in Threads |-> 0 - 1]
-Start(t) == /\ pc[t] = 0 /\ pc' = [pc EXCEPT ![t] = 1]
-            /\ scratch' = [scratch EXCEPT ![t] = inp[t]]
-            /\ shared' = IF SharedCells # {} THEN inp[t] ELSE shared
-            /\ UNCHANGED <<inp, results>>
+None == 0
+Init == /\ pc = [t \in Threads |-> 0] /\ inp = [t \in Threads |-> None]
+        /\ scratch = [t \in Threads |-> 0] /\ shared = 0 /\ kept = [t \in Threads |-> None]
+        /\ results = [t \in Threads |-> <<>>]
+\* the next call of thread t, on any input
+Start(t) == /\ pc[t] = 0 /\ Len(results[t]) < Calls
+            /\ \E x \in Inputs :
+                 /\ inp' = [inp EXCEPT ![t] = x]
+                 /\ scratch' = [scratch EXCEPT ![t] = x]
+                 /\ shared' = IF SharedCells # {} THEN x ELSE shared
+                 /\ kept' = IF Retained # {} /\ kept[t] = None THEN [kept EXCEPT ![t] = x] ELSE kept
+            /\ pc' = [pc EXCEPT ![t] = 1]
+            /\ UNCHANGED results
 Work(t) == /\ pc[t] \in 1..(K - 1) /\ pc' = [pc EXCEPT ![t] = pc[t] + 1]
-           /\ UNCHANGED <<inp, scratch, shared, results>>
-Finish(t) == /\ pc[t] = K /\ pc' = [pc EXCEPT ![t] = K + 1]
-             /\ results' = [results EXCEPT ![t] = F(IF SharedCells # {} THEN shared ELSE scratch[t])]
-             /\ UNCHANGED <<inp, scratch, shared>>
+           /\ UNCHANGED <<inp, scratch, shared, kept, results>>
+Finish(t) == /\ pc[t] = K /\ pc' = [pc EXCEPT ![t] = 0]
+             /\ results' = [results EXCEPT ![t] = Append(@, <<inp[t],
+                              F(IF SharedCells # {} THEN shared ELSE IF Retained # {} THEN kept[t] ELSE scratch[t])>>)]
+             /\ UNCHANGED <<inp, scratch, shared, kept>>
 Next == \E t \in Threads : Start(t) \/ Work(t) \/ Finish(t)
 Spec == Init /\ [][Next]_vars
-\* C14: every finished call returned what the sequential call returns
-Deterministic == \A t \in Threads : pc[t] = K + 1 => results[t] = F(inp[t])
+\* C14: every finished call returned what a call with no history and no company returns
+Deterministic == \A t \in Threads : \A i \in 1..Len(results[t]) : results[t][i][2] = F(results[t][i][1])
 =============================================================================
